@@ -234,6 +234,15 @@ def check_config(cfg, seed, part):
             part.violation(dict(case0, part="from_inference_data"), "from_inference_data: reference epoch / poly_trend / n_offsets not those of the data and prior",
                            expected=(dd["t_ref"], pt_, no), observed=(None if fs.t_ref is None else float(fs.t_ref.tcb.mjd), fs.poly_trend, fs.n_offsets))
             return
+        # the posterior group alone (documented alternative input): every draw comes back, nothing can be pruned
+        fs2 = tj.JokerSamples.from_inference_data(prior, idata.posterior, data, prune_divergences=False)
+        for k, w in want_init.items():
+            unit = getattr(prior.pars[k], xu.UNIT_ATTR_NAME)
+            got = fs2[k].to_value(unit) if hasattr(fs2[k], "to_value") else np.asarray(fs2[k])
+            if not np.allclose(got, post[k][0], rtol=1e-12, atol=0):
+                part.violation(dict(case0, part="from_inference_data", par=k, input="posterior group"), "from_inference_data(posterior group) does not return "
+                               "every MCMC draw as values in the prior's own units", expected=post[k][0], observed=got)
+                return
         for col, src in (("ln_posterior", "logp"), ("ln_likelihood", "ln_likelihood"), ("ln_prior", "ln_prior")):
             if not np.array_equal(np.asarray(fs[col], dtype=float), post[src][0][keep]):
                 part.violation(dict(case0, part="from_inference_data"), f"from_inference_data: column {col} is not the chain's {src}", expected=post[src][0][keep],
